@@ -11,7 +11,8 @@
 // borrows); the driver re-checks every sequence against the Lean model itself.
 //
 // Line format (calls separated by " ; "):
-//   SEQ ; <fn> <tok>… => <ret> m<0|1> R<ids|-> a<id|-> s<first:res|-> M<ids|-> ; … ; END <ok|leak|crash:kind|hang>
+//   SEQ ; <fn> <tok>… => <ret> m<0|1> R<ids|-> a<id|-> s<first:res|-> M<ids|-> O<0|1> ; … ; END <ok|leak@where|crash:kind@where|hang@>
+//   (O1: an index argument was beyond the size of the object it indexes)
 //   tok : o<id> object | a:<id,id,…> array | n NULL | d:<16 hex> double | i:<int> | s:<hex bytes> string/bytes | _ other
 //   ret : p0 NULL | p1 pointer | c:<n> char | i:<n> int | d:<16 hex> | v void | X:<crash:kind|hang|oom> the call did not return
 #include "common.h"
@@ -468,7 +469,8 @@ struct Exec {
         long no = callNo++;
         if (skipCalls.count(no)) return false;
         std::string line = f.name; for (auto& v : a) line += " " + tok(v);
-        put("B " + std::to_string(no) + " " + (oobIndex(f, c, a) ? "#oob" : "#") + " " + line);
+        bool oob = oobIndex(f, c, a);
+        put("B " + std::to_string(no) + " " + (oob ? "#oob" : "#") + " " + line);
         // SRID of the first read geometry argument
         int firstSrid = 0; bool haveFirst = false;
         for (size_t k = 0; k < f.spec.size() && !haveFirst; k++) { PSpec p = pspec(f.spec[k]);
@@ -515,7 +517,7 @@ struct Exec {
             if (!isNew && im != s.img) { M += (any ? "," : "") + std::to_string(i); any = true; }
             s.img = im; }
         if (!any) M += "-";
-        put("A " + rtok + " m" + (msgs ? "1" : "0") + " " + R + " " + alias + " " + srid + " " + M);
+        put("A " + rtok + " m" + (msgs ? "1" : "0") + " " + R + " " + alias + " " + srid + " " + M + (oob ? " O1" : " O0"));
         return true;
     }
 };
@@ -657,7 +659,7 @@ static std::string whereOf(const std::string& err, size_t from) {
             "geos::geom::CoordinateSequence::getX", "geos::geom::CoordinateSequence::getY", "geos::geom::CoordinateSequence::getOrdinate", "geos::geom::SimpleCurve::getCoordinateN",
             "geos::geom::CoordinateSequence::operator[]", "geos::geom::Coordinate::operator=", "geos::geom::CoordinateXY::operator=", "geos::geom::Coordinate::Coordinate", "geos::geom::CoordinateXY::CoordinateXY" };
         bool acc = false; for (auto a : ACC) if (o == a) acc = true;
-        if (acc) continue;
+        if (acc || o.rfind("std::", 0) == 0 || o.rfind("__gnu", 0) == 0 || (o.find("::") == std::string::npos && o.rfind("GEOS", 0) != 0)) continue;
         return o;
     }
     return "";
